@@ -258,7 +258,7 @@ def check(ctx):
         fact(ctx, R, w, name, Facts(w).exprs(), ["self._inequality_assertion(%s, k, in_list)" % flag],
              "%s selects the %s orientation" % (name, "less-than" if flag == "True" else "greater-than"))
     ineq = ctx.fn("cnf:CNF._inequality_assertion")
-    sel = [s for s in ineq.node.body if isinstance(s, ast.If) and ast.unparse(s.test) == "assert_less_than"]
+    sel = [s for s in ineq.node.body if isinstance(s, ast.If) and ast.unparse(s.test) == "assert_less_than" and s.orelse and "kbs" in ast.unparse(s.body[0])]
     ctx.require(len(sel) == 1, "_inequality_assertion: orientation branch not found")
     t_, e_ = ast.unparse(sel[0].body[0]), ast.unparse(sel[0].orelse[0]) if sel[0].orelse else ""
     ctx.check(t_ == "kbs, nbs = (sum_bits, k_vars)" and e_ == "kbs, nbs = (k_vars, sum_bits)", R, ineq, "orientation %s / %s" % (t_, e_),
@@ -387,6 +387,11 @@ def check(ctx):
               "for unequal widths the longer operand gets no spare leading zero (%s): sum - k can overflow the width and the asserted top bit is not the sign" % added["ys"], br[0])
     rec = [s for s in statements(msl.node) if isinstance(s, ast.Expr) and ast.unparse(s.value) == "self._make_same_length(ys, xs)"]
     ctx.check(len(rec) == 1, R, msl, "symmetric case", "the other orientation swaps the roles", "the `len(xs) > len(ys)` case no longer mirrors the first")
+
+    # the comparison circuits are built from the adders and the population count: C12's clauses, under their own names
+    if not ctx.is_control or getattr(ctx, "nested_ok", False):
+        from ..report import include
+        include(ctx, "C12")
 
     mod = sys.modules[__name__]
     control(ctx, mod, "no spare sign bit",
